@@ -248,6 +248,7 @@ struct Decl
     std::vector<int> group_order;
     std::vector<DOpt> opts;
     int positionals = 0;
+    std::string positional_name = "args";
 };
 
 std::string prior_text(size_t n, bool newline_end)
@@ -320,6 +321,11 @@ struct Exec
             {
                 d.positionals = static_cast<int>(op.a[0] % 3);
                 p->accept_positionals(static_cast<std::size_t>(d.positionals));
+                if (!op.s.empty())
+                {
+                    d.positional_name = op.s;
+                    p->positional_metavar(op.s);
+                }
             }
             else if (op.kind == K_DECLARE)
             {
@@ -489,6 +495,8 @@ struct Exec
                     units.push_back("[--" + o.name + " <" + o.metavar + ">]");
             }
         }
+        if (d.positionals)
+            units.push_back("[" + d.positional_name + " ...]");
         for (auto& u : units)
         {
             std::string norm;
@@ -883,12 +891,17 @@ public:
     {
         int n = rng.chance(1, 6) ? 0 : rng.range(1, maxwords);
         std::string t;
+        bool sloppy = rng.chance(1, 8); // leading / trailing / doubled blanks, as hand-written text has
+        if (sloppy && rng.chance(1, 2))
+            t += ' ';
         for (int i = 0; i < n; i++)
         {
             if (i)
-                t += ' ';
+                t += (sloppy && rng.chance(1, 3)) ? "  " : " ";
             t += word(rng, maxlen);
         }
+        if (sloppy && rng.chance(1, 2))
+            t += ' ';
         return t;
     }
 
@@ -938,6 +951,8 @@ public:
             Op op;
             op.kind = K_POSITIONALS;
             op.a[0] = static_cast<int64_t>(rng.below(3));
+            if (rng.chance(1, 2))
+                op.s = word(rng, 12);
             p.ops.push_back(op);
         }
         int nstreams = rng.range(4, 6);
